@@ -123,7 +123,8 @@ def correspondence(ctx):
         ctx.count('expect/' + it['expect'])
         if saf == 'ok' or saf.startswith('failed'):
             ctx.nontrivial((it['fmt'], G.digest(it['data']), tuple(sizes)))
-        ctx.sample({'label': it['label'], 'expect': it['expect'], 'length': len(it['data']), 'chunks': len(sizes),
+        if ctx.evaluations % 211 == 1:
+          ctx.sample({'label': it['label'], 'expect': it['expect'], 'length': len(it['data']), 'chunks': len(sizes),
                     'implementation': pi, 'model': pm}, 5)
         if pi != pm:
             out.append(Disagreement(case_of(it, sizes), pi, pm))
@@ -273,9 +274,11 @@ def search(ctx, seeds, full=False):
     seen_kinds = {}
 
     def add(case, kind, what, f1):
+        # f1: the input lies in class KF_F1 (whether it is *known* is decided by classify, which also
+        # asks the model); one such candidate per kind, two of every other kind
         n = seen_kinds.get(kind, 0)
         seen_kinds[kind] = n + 1
-        if n >= 2:
+        if n >= (1 if f1 else 2):
             return
         (known_like if f1 else fresh).append(Failure(case, {'kind': kind, 'what': what}))
 
@@ -333,7 +336,7 @@ def search(ctx, seeds, full=False):
                 break
     finally:
         shutil.rmtree(tmp, ignore_errors=True)
-    return fresh[:6] + known_like[:4]
+    return fresh[:6] + known_like[:8]
 
 
 # --------------------------------------------------------------------------
